@@ -61,12 +61,13 @@ def one(name):
         res["detected_quick"] = rc == 1 and bool(viol)
         # detection should not hang on one lucky seed: the other seeds asked for are recorded too
         per_seed = {os.environ.get("VERIF_SEED", "1"): res["detected_quick"]}
-        for sd in [x for x in os.environ.get("RECONF_SEEDS", "").split(",") if x]:
-            if sd in per_seed:
+        for seedv in [x for x in os.environ.get("RECONF_SEEDS", "").split(",") if x]:
+            if seedv in per_seed:
                 continue
             rc3, out3 = sh([VERIF + "/check", pid, "--tier", "quick"], cwd=VERIF,
-                           env=dict(env2, VERIF_SEED=sd), timeout=3000)
-            per_seed[sd] = rc3 == 1 and any(l.startswith("VIOLATION") for l in out3.splitlines())
+                           env=dict(env2, VERIF_SEED=seedv), timeout=3000)
+            per_seed[seedv] = rc3 == 1 and any(l.startswith("VIOLATION")
+                                               for l in out3.splitlines())
         res["detected_by_seed"] = per_seed
         # a change may break its property through a unit another property's check drives
         # (meta.json["also"]): record those outcomes too
